@@ -4,6 +4,7 @@ mod c02;
 mod c03;
 mod c08;
 mod c09;
+mod c10;
 mod c11;
 mod c12;
 mod c13;
@@ -48,6 +49,7 @@ fn main() {
         let v: serde_json::Value = std::fs::read_to_string(path).ok().and_then(|t| serde_json::from_str(&t).ok()).unwrap_or(serde_json::Value::Null);
         match prop.as_str() {
             "C09" => c09::replay(&mut rep, &v),
+            "C10" => c10::replay(&mut rep, &v),
             "C14" => c14::replay(&mut rep, &v),
             "C15" => c15::replay(&mut rep, &v),
             _ => rep.notes.push(format!("HARNESS-ERROR: no replay handler for {prop}")),
@@ -62,6 +64,7 @@ fn main() {
         "C05" => c02::run_c05(&mut rep, &tier, seed),
         "C08" => c08::run(&mut rep, &tier, seed),
         "C09" => c09::run(&mut rep, &tier, seed),
+        "C10" => c10::run(&mut rep, &tier, seed),
         "C11" => c11::run(&mut rep, &tier, seed),
         "C12" => c12::run(&mut rep, &tier, seed),
         "C13" => c13::run(&mut rep, &tier, seed),
